@@ -343,6 +343,12 @@ def register(reg):
     reg.lemma("idx_bound", dict(a=Int, b=Int, n=Int), "IDX(n, a, b) >= 0 and IDX(n, a, b) + 2 < 3*n*n",
               props=["C04", "C08", "C09"], requires={"a": "0 <= a < n", "b": "0 <= b < n"})
 
+    # with witnesses, every id up to a used id is used (the exists-form of density, for callers that know no witness)
+    reg.lemma("dense_exists", dict(r=Arr(Int), n=Int, mx=Int, wit=Arr(Int)),
+              "implies(exists(lambda j: r[j] >= b, 0, n), exists(lambda j: r[j] == b and j == wit[b], 0, n))",
+              intro={"b": ("0", "n")}, props=["C08", "C03", "C04", "C09"],
+              requires={"range": "forall(lambda j: 0 <= r[j] and r[j] <= mx, 0, n)",
+                        "wit": "forall(lambda b2: 0 <= wit[b2] and wit[b2] < n and r[wit[b2]] == b2, 0, mx + 1)"})
     reg.lemma("nl_bound", dict(n=Int, t=Int), "n * t <= n * (n - 1) and n * t >= 0", props=["C08", "C09", "C04"],
               requires={"t": "0 <= t < n"})
     reg.lemma("CH_own_zero", dict(r=Arr(Int), c=Arr(Real), t=Int, B=Int, n=Int, m=Int), "CH(r, c, t, B, n, m, B) == 0",
@@ -429,9 +435,8 @@ def register(reg):
         ghost_vars={"wit": "wit0", "r0": "r"},
         ensures={
             "range": "forall(lambda j: 0 <= r[j] <= n - 1, 0, n)",
-            # every id up to a used id is used (witnessed by the ghost array `wit`: the exists-form is the rt_only clause)
-            "dense": "forall(lambda b: implies(exists(lambda j: r[j] >= b, 0, n), 0 <= wit[b] and wit[b] < n and r[wit[b]] == b), "
-                     "0, n)",
+            # every id up to a used id is used
+            "dense": "forall(lambda b: implies(exists(lambda j: r[j] >= b, 0, n), exists(lambda j: r[j] == b, 0, n)), 0, n)",
             "nonpos": "result <= 0",
             # no single-element move gains more than the 0.001 threshold (difference-array form; the link between the
             # cumulated differences and the score difference is the delta lemma, see `assumed` and DESIGN)
@@ -483,7 +488,7 @@ def register(reg):
         },
         hints={2: ["dense_bound(r, n, max_id_bucket, wit)", "nl_bound(n, elem)",
                    "CH_own_zero(r, cost_matrix_1d, elem, r[elem], n, n)"]},
-        exit_hints={1: ["dense_bound(r, n, max_id_bucket, wit)"]},
+        exit_hints={1: ["dense_bound(r, n, max_id_bucket, wit)", "dense_exists(r, n, max_id_bucket, wit)"]},
         focus={"inv.delta": ["SC", "DQS", "DJS", "DAS", "SR_CH", "SL_CH", "SR_AD", "SL_AD", "cumr", "cuml"],
                "lemma_call.pairsum": ["SAMEREL", "MIRP"], "lemma_call.dqs": ["rel"],
                "mx_wit": ["chg_wit", "add_wit"], "mx_range": ["chg_wit", "add_wit"], "nonpos": ["cumr", "cuml"],
@@ -500,8 +505,6 @@ def register(reg):
             "_change_bucket": {"wit": "lam(lambda b: chg_wit(wit, g_mate, bucket_elem, alone, b))"},
             "_add_bucket": {"wit": "lam(lambda b: add_wit(wit, g_mate, elem, bucket_elem, to, alone, b))"},
         },
-        rt_only={"dense_exists": "forall(lambda b: implies(exists(lambda j: r[j] >= b, 0, n), "
-                                 "exists(lambda j: r[j] == b, 0, n)), 0, n)"},
         gen=lambda rng: gen_improve(rng),
     )
 
